@@ -849,6 +849,10 @@ class CallMixin:
 
     def bi_dict(self, args, kws, st, node, k):
         if args:
+            v = args[0]
+            if len(args) == 1 and not kws and isinstance(v, VRef) and isinstance(st.heap[v.rid], HDict):
+                h = st.heap[v.rid]                       # dict(d): a shallow copy
+                return k(st, st.alloc(HDict(h.kt, h.vt, h.mem, h.vals)))
             raise Unsupported("dict(x)")
         return k(st, st.alloc(HDict(None, None, None, None)))
 
